@@ -678,6 +678,58 @@ def pixel_case_json(c):
                 infs=[list(hh) for hh in c.get("infs") or []])
 
 
+def dtype_gate_checks(V, stats):
+    """Arrays whose sample type is not one of the image modes (int8, uint16, uint32, 64-bit integers, 2-D
+    float16, bool): the property speaks of images, so the implementation may refuse them up front; what it
+    must not do is accept one and write tiles that do not reproduce it.  Also the modes' own extreme values."""
+    from toasty.image import Image
+    from toasty.pyramid import PyramidIO
+    from toasty.study import StudyTiling
+    base = str(common.workdir() / "c08_dtypes")
+    H, W = 260, 300
+    specs = [("int8", -128, 127), ("uint16", 0, 65535), ("uint32", 0, 2 ** 32 - 1), ("int64", -2 ** 40, 2 ** 40),
+             ("uint64", 0, 2 ** 40), ("float16", -100, 100), ("bool", 0, 1),
+             ("uint8", 0, 255), ("int16", -32768, 32767), ("int32", -2 ** 31, 2 ** 31 - 1)]
+    for name, lo, hi in specs:
+        dt = np.dtype(name)
+        r, c = np.mgrid[0:H, 0:W]
+        span = hi - lo
+        vals = lo + ((r * 7919 + c * 104729) % (span + 1) if span < 2 ** 62 else 0)
+        arr = vals.astype(dt)
+        arr[0, 0], arr[-1, -1], arr[1, 1] = dt.type(lo), dt.type(hi), dt.type(hi)
+        for fmt in ("npy", "fits"):
+            stats["dtype_gate_cases"] = stats.get("dtype_gate_cases", 0) + 1
+            shutil.rmtree(base, ignore_errors=True)
+            try:
+                with warnings.catch_warnings():
+                    warnings.simplefilter("ignore")
+                    img = Image.from_array(arr.copy())
+                    pio = PyramidIO(base, default_format=fmt)
+                    StudyTiling(W, H).tile_image(img, pio)
+            except Exception:
+                continue            # refused: fine
+            files, _other = list_tile_files(base, fmt) if os.path.isdir(base) else (set(), [])
+            p2 = smallest_square(W, H)
+            gx0, gy0 = (p2 - W) // 2, (p2 - H) // 2
+            got = np.zeros((p2, p2), dtype=np.float64)
+            ok = True
+            for pos in files:
+                t = read_tile_direct(base, pos, fmt)
+                if t.shape != (256, 256):
+                    ok = False
+                    break
+                disp = t[::-1] if fmt in BOTTOM_UP else t
+                got[256 * pos[2]:256 * pos[2] + 256, 256 * pos[1]:256 * pos[1] + 256] = np.nan_to_num(disp.astype(np.float64))
+            back = got[gy0:gy0 + H, gx0:gx0 + W]
+            if not ok or not np.array_equal(back, arr.astype(np.float64)):
+                nbad = int(np.sum(back != arr.astype(np.float64))) if ok else -1
+                V.disagreement("C08 reassembly predicate: an array that Image.from_array accepts is reproduced by its tiles",
+                               dict(kind="dtype", dtype=name, fmt=fmt, w=W, h=H),
+                               "refused up front, or reassembled exactly",
+                               dict(differing_pixels=nbad, first_value=int(arr[0, 0]), stored=float(back[0, 0]) if ok else None), True)
+    shutil.rmtree(base, ignore_errors=True)
+
+
 def check_pixel_cases(cases, V, stats):
     keys = []
     index = {}
@@ -792,6 +844,7 @@ def run(ctx, V):
     stats = dict(pixel_cases=0, tiles_compared=0, pixels_compared=0, masked_tiles_skipped=0, multi_tile_cases=0,
                  fmt_mode={}, nontrivial=set())
     check_pixel_cases(pcases, V, stats)
+    dtype_gate_checks(V, stats)
     pix_nontrivial = stats.pop("nontrivial")
 
     samples = [geom_case_json(c) for c in (gcases[n_exh], gcases[-60], gcases[-1])] + [pixel_case_json(pcases[0])]
